@@ -42,7 +42,8 @@ THEOREMS = [P + t for t in (
     "table_good", "flag_values_decodable", "table_model_eq", "generated_model_eq", "generated_node_diff_self_none",
     "generated_node_diff_exact",
     # modified sets agree in both directions
-    "prop_diff_symm", "iface_modified_symm", "svc_modified_symm", "node_modified_symm", "svc_modified_symm_counterexample",
+    "prop_diff_symm", "iface_modified_symm", "svc_modified_symm", "node_modified_symm", "svc_modified_symm_edit",
+    "node_modified_symm_edit", "svc_modified_symm_counterexample",
     # blind spots of NodeSliver.diff, exactly
     "node_diff_complete_service_subtree_counterexample", "node_diff_complete_non_smartnic_counterexample",
     "node_diff_complete_partial",
@@ -961,6 +962,18 @@ def corner_cases():
     for kind, tree in (("node", full), ("node", node()), ("node", node([], [])), ("svc", full["comps"][0]["svcs"][0]),
                        ("svc", svc("s0")), ("iface", full["comps"][0]["svcs"][0]["ifs"][0]), ("iface", ded("p"))):
         cs.append({"kind": kind, "tree": tree, "script": {}})
+    # present-but-empty values: Labels(), Capacities(), Capacities(bw=0), UserData('{}') on an element and its identical copy
+    # (no difference), set again to an equal empty value (no difference), and against an unset property (a difference)
+    E1, E2 = [{}, {}, '{}'], [{}, {"bw": 0}, '{ }']
+    empties = node([comp("nic1", "SmartNIC", [svc("nic1-ns", [ded("p1", [leaf("p1.1", E1)], E2)], E1)], E2), comp("gpu1", "GPU", None, E1)],
+                   [svc("ns1", [shp("q1", E1)], E2)], E1)
+    cs.append({"kind": "node", "tree": empties, "script": {}})
+    cs.append({"kind": "node", "tree": empties, "script": {"pe": {"labels": [{}], "caps": [{"bw": 0}], "ud": ['{}']},
+                                                          "comp": {"gpu1": {"pe": {"caps": [{}]}}, "nic1": {"pe": {"labels": [{}]}}},
+                                                          "svc": {"ns1": {"pe": {"caps": [{}], "ud": ['{ }']}}}}})
+    cs.append({"kind": "node", "tree": empties, "script": {"pe": {"labels": [None]}, "comp": {"gpu1": {"pe": {"caps": [None]}}}}})
+    cs.append({"kind": "svc", "tree": empties["comps"][0]["svcs"][0], "script": {"iface": {"p1": {"pe": {"caps": [{}]}, "sub": {"p1.1": {"labels": [{}]}}}}}})
+    cs.append({"kind": "iface", "tree": empties["comps"][0]["svcs"][0]["ifs"][0], "script": {"sub": {"p1.1": {"caps": [None]}}}})
     # one elementary edit each, on the full tree
     one = [
         {"pe": {"labels": [{"vlan": "7"}]}}, {"pe": {"caps": [{"bw": 5}]}}, {"pe": {"ud": ['{"z": 1}']}}, {"pe": {"ud": ['{ "a":1 }']}},
